@@ -130,6 +130,15 @@ def stateless_body(ctx, case):
         elif w == "not_in_x":
             bad = [float(xs[0]), float(xs[1] + 0.5 * (xs[2] - xs[1])), float(xs[-1])]
             _expect_value_error(lambda: f(xs, ys, x, y, fixed_points_in_x=bad), "fixed points that are not samples of x")
+            # the same on integer-dtype abscissae (sample counters): k + 0.5 is not a sample either
+            xi = np.arange(len(xs), dtype=np.int64)
+            xri = xi[::4]
+            bad_i = [0.0, 1.5, float(xi[-1])]
+            _expect_value_error(lambda: f(xi, ys, xri, y[:len(xri)], fixed_points_in_x=bad_i),
+                                "fixed points that are not samples of an integer-dtype x")
+            _expect_value_error(lambda: f(xi.tolist(), ys.tolist(), xri.tolist(), y[:len(xri)].tolist(),
+                                          fixed_points_in_x=[0, 2.5, int(xi[-1])]),
+                                "fixed points that are not samples of an integer list x")
         elif w == "too_many_x":
             _expect_value_error(lambda: f(xs, ys, x, y, fixed_points_in_x=list(xs) + [float(xs[-1] + 1)]),
                                 "more fixed positions than samples")
